@@ -67,6 +67,13 @@ class Obj:
         return issubclass(self.cls, c)
 
 
+class PartialVar:
+    """a local bound on only one arm of a merged if-statement"""
+
+    def __init__(self, cond, value):
+        self.cond, self.value = cond, value
+
+
 class Closure:
     def __init__(self, node, env, owner_fn, name):
         self.node, self.env, self.owner_fn, self.name = node, env, owner_fn, name
@@ -234,6 +241,9 @@ class Executor:
         self.args0 = None
         self.loop_order = {}
         self.fresh.side = []
+        self.cuts = {}
+        self.cut_done = set()
+        self.entry_pc = []
 
     # ------------------------------------------------------------------ helpers
     def feasible(self, st):
@@ -327,7 +337,12 @@ class Executor:
         raise Unsupported(f"unbound name {name} at line {line}")
 
     def ev_Name(self, e, st):
-        yield st, self.lookup(e.id, st, e.lineno)
+        v = self.lookup(e.id, st, e.lineno)
+        if isinstance(v, PartialVar):
+            # bound on one arm of a merged `if` only: reading it elsewhere would be an UnboundLocalError
+            self.oblige(st, v.cond, "safety", f"local-{e.id}-is-bound", line=e.lineno)
+            v = v.value
+        yield st, v
 
     def ev_Tuple(self, e, st):
         if any(isinstance(x, ast.Starred) for x in e.elts):
@@ -923,6 +938,8 @@ class Executor:
             raise Unsupported(f"call depth exceeded in {name}")
         self.depth += 1
         try:
+            if self.depth == 1:
+                self.entry_env = dict(env)
             st.frames.append(st.env)
             st.env = env
             if isinstance(node, ast.Lambda):
@@ -955,6 +972,10 @@ class Executor:
             if i == len(stmts):
                 outs.append((s, None))
                 continue
+            if self.cuts and id(stmts[i]) in self.cuts:
+                s = self.world.do_cut(self, self.cuts[id(stmts[i])], stmts, i, s)
+                if s is None:
+                    continue
             for s1, o in self.step(stmts[i], s):
                 if o is None:
                     work.append((s1, i + 1))
